@@ -170,8 +170,9 @@ def server_answers_4xx(stream: bytes):
 
     res = serve_stream(stream)
     probs = []
+    why = http1.read_requests(stream).why
     if not res["responses"] or not (400 <= res["responses"][-1][0] < 500):
-        probs.append(("C01:server-no-4xx", f"server wrote {res['responses']!r} for malformed stream {stream[:120]!r}"))
+        probs.append((f"C01:server-no-4xx[{why}]", f"server wrote {res['responses']!r} for malformed stream {stream[:120]!r}"))
     elif not res["closed"]:
         probs.append(("C01:server-not-closed", f"server answered {res['responses'][-1][0]} but kept the connection open: {stream[:120]!r}"))
     return probs
